@@ -6,11 +6,17 @@
     that the planner computes from what prune itself observed (the listed,
     non-dot, non-directory entries with the mtime and read mark stat returned,
     in listing order).  C08 proves that this planner IS the classical Second
-    Chance clock for all inputs and capacities.  What a run of the real code
+    Chance clock for all inputs and capacities.  Likewise for the reprieves: the
+    entries prune sets out to re-stamp are, exactly and in order, those the
+    planner moves back, after all evictions
+    ([C07_prune_reprieves_exactly_the_plan]); and every two-time stamp issued by
+    maintenance or by a writer carries (now - 120 s, now) for the last clock
+    reading ([C07_restamp_values]): a reprieved entry becomes the youngest and
+    loses its read mark.  What a run of the real code
     observes and does is tied to this model by vlib/c07.py (populations x
     capacities, traces equal; the unlink order judged by the proved verdict). *)
 From Coq Require Import List NArith ZArith String Bool.
-From Kismet Require Import FS.Fs FS.Prog Ops.Ops Spec.Wp Pure.SecondChance Proofs.SecondChanceProofs Proofs.PruneExact Proofs.MaintScope.
+From Kismet Require Import FS.Fs FS.Prog Ops.Ops Spec.Wp Pure.SecondChance Proofs.SecondChanceProofs Proofs.PruneExact Proofs.MaintScope Proofs.ReprieveExact Proofs.Restamp.
 Import ListNotations.
 
 Theorem C07_prune_evicts_exactly_the_plan : forall dir cap,
@@ -37,6 +43,49 @@ Theorem C07_on_every_run : forall dir cap w o,
 Proof. intros. apply (wp_run o_step _ _ o_init w o (prune_evicts_exactly_the_plan dir cap)). Qed.
 
 (** The candidates handed to the planner are tagged with their listing position. *)
+(** The reprieves: exactly the planner's move-back list, in order, after the evictions. *)
+Theorem C07_prune_reprieves_exactly_the_plan : forall dir cap,
+  wp r_step (prune dir cap)
+     (fun r s' => match r with
+                  | Ok (est, nev) =>
+                      exists ev mb, plan (entries_of (r_obs s')) cap = Some (ev, mb) /\
+                        r_unl s' = map (fun e => dir ++ [name_at (r_obs s') e]) ev /\
+                        r_stp s' = map (fun e => dir ++ [name_at (r_obs s') e]) mb /\
+                        r_late s' = false
+                  | _ => True
+                  end) r_init.
+Proof. exact prune_reprieves_exactly_the_plan. Qed.
+
+Theorem C07_reprieves_on_every_run : forall dir cap w o,
+  let '(r, _, _, tr) := run (prune dir cap) w o in
+  exists s', mon_run r_step r_init tr = Some s' /\
+    match r with
+    | Ok (est, nev) => exists ev mb, plan (entries_of (r_obs s')) cap = Some (ev, mb) /\
+                         r_stp s' = map (fun e => dir ++ [name_at (r_obs s') e]) mb /\ r_late s' = false
+    | _ => True
+    end.
+Proof.
+  intros dir cap w o. pose proof (wp_run r_step (prune dir cap) _ r_init w o (prune_reprieves_exactly_the_plan dir cap)) as H.
+  destruct (run (prune dir cap) w o) as [[[r w'] o'] tr]. destruct H as (s' & Hm & HQ). exists s'. split; [exact Hm|].
+  destruct r as [[est nev]|e|]; auto. destruct HQ as (ev & mb & Hp & _ & Hs & Hl). exists ev, mb. auto.
+Qed.
+
+(** The values: every futimens that sets both times carries (t - 120 s, t) for the
+    last clock reading t - in maintenance and in the writers, whatever the responses. *)
+Theorem C07_restamp_values : forall dir cap d base (which : bool) name v,
+  rs (prune dir cap) /\ rs (definitely_cleanup d base) /\
+  rs (cd_publish (if which then insert_or_update else insert_or_touch) d name v).
+Proof. intros. split; [apply rs_prune|split; [apply rs_definitely_cleanup|apply rs_cd_publish]]. Qed.
+
+Theorem C07_restamp_values_on_every_run : forall dir cap w o s,
+  let '(_, _, _, tr) := run (prune dir cap) w o in mon_run rs_step s tr <> None.
+Proof. intros dir cap w o s. exact (restamp_run _ (rs_prune dir cap) w o s). Qed.
+
+Theorem C07_restamp_monitor : forall fd a m t r,
+  rs_step (Some t) (EvCall (CFutimens fd (Some a) (Some m)) r) =
+  if ((m =? t) && (a =? t - 120 * 1000000000))%Z%bool then Some (Some t) else None.
+Proof. intros. reflexivity. Qed.
+
 Theorem C07_entries_tagged : forall files, map eid (entries_of files) = seq 0 (List.length files).
 Proof.
   intros files. unfold entries_of. rewrite map_map.
